@@ -61,4 +61,21 @@ def check(ctx: Ctx) -> str:
     cl = repo.func("lexer:TokenStream.close")
     ctx.check("Token(self.current.lineno, TOKEN_EOF, '')" in ast.unparse(cl.node), "TokenStream.close", "lexer:TokenStream.close", "eof line", "the EOF token must carry the last line", cl.loc())
     token_line_rules(ctx, "R3")
+
+    ctx.rule("R5", "traceback rewriting: frames of @internalcode functions are dropped *before* a frame is looked at as a template frame (the generated module defines @internalcode stubs, e.g. for unknown filters - their frames carry __jinja_template__ too and sit on the def line); template frames are replaced by a fake frame at get_corresponding_lineno(tb.tb_lineno)")
+    ctx.use("debug")
+    rw = repo.func("debug:rewrite_traceback_stack")
+    loops = [n_ for n_ in ast.walk(rw.node) if isinstance(n_, ast.While) and "tb is not None" in ast.unparse(n_.test)]
+    ctx.need(len(loops) == 1, "rewrite_traceback_stack: frame loop not found")
+    loop = loops[0]
+    tmpl_reads = [n_ for n_ in ast.walk(loop) if isinstance(n_, ast.Call) and "__jinja_template__" in ast.unparse(n_)]
+    ctx.need(len(tmpl_reads) >= 1, "rewrite_traceback_stack: __jinja_template__ lookup not found")
+    fakes = [c for c in astq.calls(loop) if astq.callee(c) == "fake_traceback"]
+    ctx.need(len(fakes) == 1, "rewrite_traceback_stack: fake_traceback call not found in the loop")
+    gs = astq.guard_texts(loop, fakes[0])
+    skipped_first = any(g == "tb.tb_frame.f_code in internal_code" and not pol for g, pol in gs)
+    ctx.check(skipped_first, "rewrite:internal-first", "debug:rewrite_traceback_stack", "template frame handling not guarded by the @internalcode test",
+              f"a frame is turned into a template frame on a path where `tb.tb_frame.f_code in internal_code` was not excluded (guards: {[('' if p else 'not ') + g for g, p in gs]}): the @internalcode stub the compiler emits for an unknown filter / test becomes the innermost template frame and the error is reported at the line of the enclosing root / block / macro instead of the failing line", rw.loc(fakes[0]))
+    lin = [c for c in astq.calls(loop) if astq.callee(c).endswith("get_corresponding_lineno")]
+    ctx.check(len(lin) == 1 and ast.unparse(lin[0].args[0]) == "tb.tb_lineno", "rewrite:lineno", "debug:rewrite_traceback_stack", "line translation", "the fake frame must carry template.get_corresponding_lineno(tb.tb_lineno)", rw.loc())
     return __doc__ or ""
